@@ -28,13 +28,16 @@ ASSUMPTIONS = ["grid.middle returns a point strictly inside a gap, and x/2 next 
 THEOREM_NOTES = {
     "C13_fixed_admissible": "for the repaired constructor (ValueError for nb_of_points < 2, commit 'fix: create_from_fixed_nb_of_points ...' on fix-grid)",
     "C13_credit_admissible": "for the repaired constructor (ValueError unless every axis is strictly increasing, commit 'fix: CTMCCredit accepted ...' on fix-grid)",
-    "C13_uniform_admissible": "for the repaired constructor (ValueError when a side would lack -h/+h); linspace modelled as its mathematical sequence, "
-                              "tied with tolerance 1e-12; int() as floor",
+    "C13_uniform_admissible": "for the repaired constructor (ValueError unless int(|l|/h) >= 2 and int(r/h) >= 2: fix-grid + fix-grid2); both end "
+                              "points are the truncation bounds; linspace modelled as its mathematical sequence, tied with tolerance 1e-12; int() as floor",
+    "middle": "the n-level theorems need one STATELESS middle (proved instance: the arithmetic mean); CTMCGridProbabilityStep.middle reads grid.h: "
+              "only the one-step theorems C13_refine_nests / C13_refine_admissible_axis apply to it (oracle-checked premises)",
+    "0 < h": "assumed by every theorem; create_from_fixed_nb_of_points does not reject h <= 0 (h = -0.5 returns a decreasing axis): observation, not repaired",
     "C13_geometric": "not a theorem: CTMCGridGeometric / CTMCGridProbabilityStep axes are covered by C13_assembly_admissible "
                      "(premises checked by the oracle on the implementation's arrays), not by a model of geomspace / the root searches",
     "tail probability": "not proved (numerical root search); monitored: mass(h/2, r)/mass(h/2, inf) within 1e-6 of the target",
 }
-LEVEL_TEXT = ("Proof: 13 Coq theorems (closed under the global context) state that create_from_fixed_nb_of_points, CTMCUniformGrid (linspace as its mathematical sequence) and CTMCCredit return, "
+LEVEL_TEXT = ("Proof: 14 Coq theorems (closed under the global context) state that create_from_fixed_nb_of_points, CTMCUniformGrid (linspace as its mathematical sequence) and CTMCCredit return, "
               "for every argument they accept, strictly increasing axes with 0 at the origin index and -h/+h as neighbours and end points "
               "at the reported truncations; that any assembly left++[0]++right with pivot len(left) does; and that refine - modelled as "
               "the np.insert loop, proved equal to the interleaving - keeps every old state at 2^n times its index, inserts exactly one "
@@ -171,10 +174,32 @@ def build_credit(l, r, h, levels, sym):
         return CTMCCredit(h=h, level_a=(levels[0] if dim == 1 else list(levels)), model=dummy_model(dim), symmetric_grid=sym)
 
 
+GUARD_MESSAGES = ("h is too large for the truncation bounds", "expected nb_of_points", "CTMCCredit grid error",
+                  "level a smaller than the last left point", "the number of points is greater than")
+
+
+def is_guard(e) -> bool:
+    """a ValueError raised by one of the constructors' own argument guards (a legitimate rejection); any other ValueError
+    (e.g. brentq: f(a) and f(b) must have different signs) is an uncontrolled failure and is reported separately"""
+    return isinstance(e, ValueError) and any(m in str(e) for m in GUARD_MESSAGES)
+
+
+def note_exception(res, table, e, ctor, args):
+    if is_guard(e):
+        res.bump(table, "guard ValueError")
+    else:
+        res.bump(table, f"UNEXPECTED {type(e).__name__}")
+        res.bump("unexpected_constructor_exception", f"{ctor}: {type(e).__name__}: {str(e)[:70]}")
+        if len(res.notes) < 12:
+            res.notes.append(f"{ctor} raised {type(e).__name__} (not an argument guard): {str(e)[:100]} args={json.dumps(args, default=str)[:160]}")
+
+
 def try_build(f, *a):
     try:
         return f(*a), None
     except ValueError as e:
+        if not is_guard(e):
+            raise
         return None, f"ValueError: {e}"
 
 
@@ -342,20 +367,27 @@ def _check_grid_and_refine(res, viol, grid, ctor, args, n_refine=2, exact_mid=Tr
             return
 
 
-def _tail_monitor(res, viol, model, grid, ctor, args, target=0.99999):
-    """promised tail probability of compute_truncation (monitor, tolerance 1e-6)"""
+def _tail_monitor(res, viol, model, grid, ctor, args, target=0.99999, finding=None):
+    """promised tail probability of compute_truncation at the grid's reported truncation bounds (monitor, tolerance 2e-7:
+    2% of the tail 1e-5 that is being cut; brentq's own tolerance is ~1e-12)"""
     nu = model.levy_triplet.nu
     h = grid.h
     l, r = grid.truncations[0]
     try:
-        pr = nu.integrate(h / 2, r) / nu.integrate(h / 2, np.inf)
-        pl = nu.integrate(l, -h / 2) / nu.integrate(-np.inf, -h / 2)
-    except Exception:
+        with np.errstate(all="ignore"):
+            pr = nu.integrate(h / 2, r) / nu.integrate(h / 2, np.inf)
+            pl = nu.integrate(l, -h / 2) / nu.integrate(-np.inf, -h / 2)
+    except Exception as e:  # noqa
+        res.bump("tail_monitor", f"not evaluated: {type(e).__name__}")
         return
-    res.bump("tail_monitor", "ok" if abs(pr - target) < 1e-6 and abs(pl - target) < 1e-6 else "off")
-    if abs(pr - target) > 1e-6 or abs(pl - target) > 1e-6:
+    if not (np.isfinite(pr) and np.isfinite(pl)):
+        res.bump("tail_monitor", "not evaluated: non-finite mass ratio")
+        return
+    ok = abs(pr - target) <= 2e-7 and abs(pl - target) <= 2e-7
+    res.bump("tail_monitor", f"{ctor}: {'ok' if ok else 'off'}")
+    if not ok:
         viol(f"{ctor}: end points do not carry the promised tail probability", kind="ctor", ctor=ctor, args=args,
-             left=pl, right=pr, target=target)
+             left=float(pl), right=float(pr), target=target, **({"finding": finding} if finding else {}))
 
 
 def _oracle_constructors(res, rng, scale, viol):
@@ -367,6 +399,10 @@ def _oracle_constructors(res, rng, scale, viol):
             nu = random_step_measure(rng, Fr(-rng.randrange(2, 6)), Fr(rng.randrange(2, 6)), zero_prob=0.0)
             nu.strict = False
             specs.append(step_spec(nu))
+        # truncation bounds between h and 2h on one side: int(r/h) = 1 resp. int(|l|/h) = 1 (F-C13-5 / F-C13-1)
+        from stepmeasure import StepMeasure
+        specs.append(dict(step_spec(StepMeasure([Fr(-2), Fr(0), Fr(2, 5)], [Fr(3), Fr(3)], strict=False)), hs=[0.25, 0.125]))
+        specs.append(dict(step_spec(StepMeasure([Fr(-2, 5), Fr(0), Fr(2)], [Fr(3), Fr(3)], strict=False)), hs=[0.25, 0.125]))
         for spec in specs:
             fam = spec["family"]
             try:
@@ -376,6 +412,7 @@ def _oracle_constructors(res, rng, scale, viol):
                 continue
             hs = [0.02, 0.05, 0.1] if fam != "STEP" else [0.25, 0.5, 1.0]
             hs.append(rng.choice([0.3, 0.6, 1.2, 2.5]))          # large h relative to the truncation
+            hs = spec.pop("hs", hs)
             for h in hs:
                 args = {"model": spec, "h": h}
                 # uniform (also a tolerance correspondence case: linspace is modelled as its mathematical sequence)
@@ -387,8 +424,8 @@ def _oracle_constructors(res, rng, scale, viol):
                     try:
                         gu = CTMCUniformGrid(h=h, model=model)
                         exp = (gu.axes[0].tolist(), origin_indices(gu)[0]) if len(gu.axes[0]) <= 400 else "skip"
-                    except ValueError:
-                        exp = None
+                    except ValueError as e:
+                        exp = None if is_guard(e) else "skip"
                     if exp != "skip":
                         UNIFORM_CASES.append(f"({qlit(lr[0])}, {qlit(h)}, {qlit(lr[1])}, "
                                              f"{opt(exp, lambda e: '(' + lst([qlit(x) for x in e[0]]) + ', ' + natlit(e[1]) + ')')})")
@@ -396,13 +433,11 @@ def _oracle_constructors(res, rng, scale, viol):
                     g = CTMCUniformGrid(h=h, model=model)
                     res.count(("uniform", fam, h, rep), kind="CTMCUniformGrid")
                     res.bump("uniform_outcome", "grid")
-                    _tail_big = int(abs(g.truncations[0][0]) / h) >= 2
+                    _tail_monitor(res, viol, model, g, "CTMCUniformGrid", args, finding="F-C13-5")
                     _check_grid_and_refine(res, viol, g, "CTMCUniformGrid", args, finding="F-C13-1")
-                except ValueError:
-                    res.count(("uniform", fam, h, rep), nontrivial=False, kind="CTMCUniformGrid")
-                    res.bump("uniform_outcome", "ValueError")
                 except Exception as e:  # noqa
-                    res.bump("uniform_outcome", type(e).__name__)
+                    res.count(("uniform", fam, h, rep), nontrivial=False, kind="CTMCUniformGrid")
+                    note_exception(res, "uniform_outcome", e, "CTMCUniformGrid", args)
                 # geometric
                 for nb in (2, 3, rng.randrange(4, 12)):
                     try:
@@ -411,21 +446,18 @@ def _oracle_constructors(res, rng, scale, viol):
                         if nb == 3:
                             _tail_monitor(res, viol, model, g, "CTMCGridGeometric", dict(args, nb=nb))
                         _check_grid_and_refine(res, viol, g, "CTMCGridGeometric", dict(args, nb=nb), finding="F-C13-4")
-                    except ValueError as e:
-                        res.bump("geometric_outcome", "ValueError")
                     except Exception as e:  # noqa
-                        res.bump("geometric_outcome", type(e).__name__)
+                        note_exception(res, "geometric_outcome", e, "CTMCGridGeometric", dict(args, nb=nb))
                 # credit through the real root search
                 try:
                     l, r = compute_truncation(model, h)
                     a = float(rng.uniform(l * 0.9, -1.5 * h))
                     g = CTMCCredit(h=h, level_a=a, model=model)
                     res.count(("credit-real", fam, h, rep), kind="CTMCCredit(real truncation)")
+                    _tail_monitor(res, viol, model, g, "CTMCCredit", dict(args, level_a=a))
                     _check_grid_and_refine(res, viol, g, "CTMCCredit", dict(args, level_a=a), finding="F-C13-3")
-                except ValueError:
-                    res.bump("credit_real_outcome", "ValueError")
                 except Exception as e:  # noqa
-                    res.bump("credit_real_outcome", type(e).__name__)
+                    note_exception(res, "credit_real_outcome", e, "CTMCCredit", args)
             # with bounds (no model)
             for _ in range(2):
                 h = rng.choice([0.01, 0.1, 0.25])
@@ -460,16 +492,16 @@ def _oracle_constructors(res, rng, scale, viol):
                                symmetric_grid=rng.random() < 0.5)
                 res.count(("credit-2d", h, rep), kind="CTMCCredit 2d (real truncation)")
                 _check_grid_and_refine(res, viol, g, "CTMCCredit(copula)", {"h": h, "models": [sp[0], sp[1]]}, n_refine=1, finding="F-C13-3")
-            except ValueError:
-                res.bump("copula_ctor_outcome", "ValueError")
+            except ValueError as e:
+                note_exception(res, "copula_ctor_outcome", e, "CTMCUniformGrid/CTMCCredit(copula)", {"h": h})
         # CTMCCredit in dimension 2 and 3 with well separated thresholds, real truncation search
         for levels, h in (([-0.05, -0.2], 0.02), ([-0.2, -0.05, -0.1], 0.02), ([-0.3, -0.08], 0.01)):
             for sym in (True, False):
                 cmN = build_copula_model([sp[k % len(sp)] for k in range(len(levels))], "clayton")
                 try:
                     g = CTMCCredit(h=h, level_a=list(levels), model=cmN, symmetric_grid=sym)
-                except ValueError:
-                    res.bump("copula_ctor_outcome", "ValueError")
+                except ValueError as e:
+                    note_exception(res, "copula_ctor_outcome", e, "CTMCCredit(copula)", {"h": h, "levels": levels})
                     continue
                 res.count(("credit-nd", tuple(levels), h, sym, rep), kind=f"CTMCCredit {len(levels)}d (real truncation)")
                 for k, a in enumerate(levels):
